@@ -619,6 +619,11 @@ func (s *Service) abandon(thID string, msg service.DIDCommMsg, processErr error)
 		return fmt.Errorf("unable to update the state to abandoned: %w", err)
 	}
 
+	// a thread that reached a terminal state is not left again (a failure after completion ends up here as well)
+	if connRec.State == StateIDCompleted || connRec.State == StateIDAbandoned {
+		return fmt.Errorf("unable to update the state to abandoned: the thread is already %s", connRec.State)
+	}
+
 	connRec.State = (&abandoned{}).Name()
 
 	err = s.update(msg.Type(), connRec)
